@@ -26,7 +26,14 @@ type scanner struct {
 	chk      []uint64
 	pre      *dyn.ConvOp
 	pres     []*dyn.ConvOp
+	// fillVia 1: the samples are put in through a second view of the source
+	// operand's storage, never through the operand object itself (which keeps
+	// whatever it remembers from the conversion before)
+	fillVia int
 }
+
+// scanSecondView counts the conversions whose source was filled through a second view only.
+var scanSecondView int64
 
 // scanPartial counts the conversions whose operands ended in a partly filled frame.
 var scanPartial int64
@@ -45,6 +52,7 @@ func flushScanObs(c *core.Ctx) {
 	c.Obs("same_type_scans_between_two_windows_of_one_buffer", atomic.SwapInt64(&scanSameParent, 0))
 	c.Obs("conversions_into_a_shorter_destination_with_spare_capacity", atomic.SwapInt64(&scanShortDst, 0))
 	c.Obs("conversions_of_a_source_last_written_by_another_conversion_and_then_through_a_second_view", atomic.SwapInt64(&scanPreWritten, 0))
+	c.Obs("reconversions_of_one_source_object_refilled_through_a_second_view_only", atomic.SwapInt64(&scanSecondView, 0))
 }
 
 const chunkN = 1 << 14
@@ -128,7 +136,10 @@ func (s *scanner) conv(in []uint64) []uint64 {
 		// every other call: the whole destination buffer (longer than the source)
 		dst = s.dst
 	}
-	if s.calls%8 == 5 && n%s.ch == 0 && src.Length() > 0 {
+	if s.fillVia == 1 && n%s.ch == 0 && src.Length() > 0 {
+		s.cv.S.Fill(src.Slice(0, src.Length()), in)
+		atomic.AddInt64(&scanSecondView, 1)
+	} else if s.calls%8 == 5 && n%s.ch == 0 && src.Length() > 0 {
 		// the source operand was last written as a whole by another library
 		// conversion (as its destination); the samples to convert are then put
 		// in through a second view of the same storage, not through the operand
